@@ -140,6 +140,52 @@ struct C16 : vr::Driver {
       }
       if (!threw) return bad("parent-of-root", "getParent() of the root did not report an error");
     }
+    // derived objects are indistinguishable from freshly constructed ones, whatever was done to their source before
+    // (observers such as hashing, comparing and reading the cached strings must not leave state that a derivation copies)
+    {
+      auto H = [](const CgroupPath& x) { return std::hash<CgroupPath>()(x); };
+      auto sameAsFresh = [&](const CgroupPath& x, const char* how) {
+        CgroupPath fresh(x.cgroupFs(), x.relativePath());
+        if (!(x == fresh) || x != fresh || H(x) != H(fresh) || x.absolutePath() != fresh.absolutePath() || x.relativePathParts() != fresh.relativePathParts()) {
+          bad("derived-differs-from-fresh", std::string(how) + " yields an object that differs from a freshly constructed '" + x.relativePath() + "' (hash " +
+                                                std::to_string(H(x)) + " vs " + std::to_string(H(fresh)) + ")");
+          return false;
+        }
+        std::unordered_set<CgroupPath> set;
+        set.insert(fresh);
+        if (!set.count(x)) {
+          bad("derived-differs-from-fresh", std::string(how) + ": not found in an unordered_set holding an equal path");
+          return false;
+        }
+        return true;
+      };
+      for (int observed = 0; observed < 2; observed++) {
+        CgroupPath src(fsIn, s);
+        if (observed) {
+          (void)H(src);
+          (void)(src == p);
+          (void)src.absolutePath();
+        }
+        CgroupPath cp = src;
+        if (!sameAsFresh(cp, observed ? "copy of an observed path" : "copy")) return false;
+        CgroupPath ch = src.getChild("k");
+        if (!sameAsFresh(ch, observed ? "getChild on an observed path" : "getChild")) return false;
+        if (observed) (void)H(ch);
+        CgroupPath back = ch.getParent();
+        if (!sameAsFresh(back, observed ? "getParent on an observed path" : "getParent")) return false;
+        if (!want.empty()) {
+          CgroupPath par = src.getParent();
+          if (!sameAsFresh(par, observed ? "getParent on an observed path" : "getParent")) return false;
+          if (observed) (void)H(par);
+          CgroupPath sib = par.getChild("z");
+          if (!sameAsFresh(sib, "getParent().getChild()")) return false;
+        }
+        CgroupPath asg(fsIn, "q/r");
+        if (observed) (void)H(asg);
+        asg = src;
+        if (!sameAsFresh(asg, observed ? "assignment over an observed path" : "assignment")) return false;
+      }
+    }
     if (want.size() >= 2 || s != rel) obs.insert(vr::fnv(rel + "|" + std::to_string(want.size())));
     return true;
   }
@@ -286,7 +332,7 @@ struct C16 : vr::Driver {
   std::string rule() override {
     return "exhaustive: all strings len<=L over {a b / * ? .} and all concatenations of <=4 components from {'',a,ab,b,*,a*,?,.,..,.a} "
            "with every leading/trailing/double slash placement -> constructor canonical form, absolute path, getChild/getParent "
-           "identity, multi-component child, parent-of-root error; all pairs (len<=L string, len<=4 string) -> operator==/!=/hash vs "
+           "identity, derived objects (copy, assignment, child, parent - from sources that were or were not hashed/compared before) equal to freshly constructed ones incl. hash and unordered_set lookup, multi-component child, parent-of-root error; all pairs (len<=L string, len<=4 string) -> operator==/!=/hash vs "
            "absolute-path and canonical-component equality; all (path,pattern) pairs len<=4 -> prekill-hook prefix match vs the "
            "three-case rule; all 256 subsets of an 8-entry universe of directories and files (incl. a dot-directory, files matching "
            "the pattern, entries next to the root sharing its name prefix) x all patterns len<=4 -> resolveWildcard set vs component-wise "
